@@ -3866,5 +3866,211 @@ theorem wired_run (ops : List Op) : ∀ {h : Heap}, Wired h → Wired (run h ops
   | nil => intro h w; exact w
   | cons op ops ih => intro h w; exact ih (wired_step w op)
 
+
+/-! ### Posting reaches owners only -/
+
+theorem Anc.trans {h : Heap} {x y z : Id} (a : Anc h x y) (b : Anc h y z) : Anc h x z := by
+  induction a with
+  | refl => exact b
+  | step ho _ ih => exact Anc.step ho (ih b)
+
+theorem Anc.congr {h h' : Heap} (hg : ∀ i, h'.get i = h.get i) {x y : Id} (a : Anc h x y) : Anc h' x y := by
+  induction a with
+  | refl => exact Anc.refl _
+  | step ho _ ih => exact Anc.step (by rw [ownerOf_congr hg]; exact ho) ih
+
+/-- who is registered for an object's `*.Changed` notification, other than the object itself: its owner -/
+theorem changed_observer_is_owner {h : Heap} (w : Wired h) {r : Reg} (hr : r ∈ h.regs) {ks : Kind}
+    (kx : h.kindOf r.observable = some ks) (hn : r.name = changedName ks) (hne : r.observer ≠ r.observable) :
+    h.ownerOf r.observable = some r.observer := by
+  rcases (w.regSound r hr).2 with ⟨_, h2⟩ | ⟨h1, h2⟩
+  · exact absurd h2 hne
+  · rcases h2 with h2 | ⟨kl, h2⟩
+    · exact h2
+    · -- the font's observation of a layer is for other notifications
+      exfalso
+      rw [kx] at kl; cases kl
+      have kf := ancOf_kind h2
+      rw [hn] at h1
+      simp [namesFor, kf, kx, tableNames, changedName] at h1
+
+theorem post_sound (fuel : Nat) :
+    ∀ {h : Heap} (w : Wired h) (s : Id),
+      (∀ a ∈ (post fuel h s).2, Anc h s a) ∧
+      (∀ a ∈ (post fuel h s).1.dirty, a ∈ h.dirty ∨ Anc h s a) := by
+  induction fuel with
+  | zero => intro h w s; exact ⟨fun a ha => by simp [post] at ha, fun a ha => Or.inl ha⟩
+  | succ fuel ih =>
+    intro h w s
+    unfold post
+    split
+    · rename_i c ks hc hk
+      -- the observers are owners of s
+      have hobs : ∀ r ∈ h.regs.filter (fun r => r.centre = c ∧ r.observable = s ∧ r.name = changedName ks ∧ r.observer ≠ s),
+          h.ownerOf s = some r.observer := by
+        intro r hr
+        simp only [List.mem_filter, decide_eq_true_eq] at hr
+        obtain ⟨hr0, _, h2, h3, h4⟩ := hr
+        have := changed_observer_is_owner w hr0 (by rw [h2]; exact hk) h3 (by rw [h2]; exact h4)
+        rw [h2] at this; exact this
+      generalize (h.regs.filter _) = obs at hobs
+      suffices H : ∀ (acc : Heap × List Id), (∀ i, acc.1.get i = h.get i) → acc.1.regs = h.regs →
+          (∀ a ∈ acc.2, Anc h s a) → (∀ a ∈ acc.1.dirty, a ∈ h.dirty ∨ Anc h s a) →
+          (∀ a ∈ (obs.foldl (fun (acc : Heap × List Id) r =>
+            if h.kindOf r.observer = some .font ∧ ks = .layerSet ∧ ¬ acc.1.isDirty s then acc
+            else
+              let res := post fuel (acc.1.setDirty r.observer) r.observer
+              (res.1, acc.2 ++ res.2)) acc).2, Anc h s a) ∧
+          (∀ a ∈ (obs.foldl (fun (acc : Heap × List Id) r =>
+            if h.kindOf r.observer = some .font ∧ ks = .layerSet ∧ ¬ acc.1.isDirty s then acc
+            else
+              let res := post fuel (acc.1.setDirty r.observer) r.observer
+              (res.1, acc.2 ++ res.2)) acc).1.dirty, a ∈ h.dirty ∨ Anc h s a) from
+        H (h, [s]) (fun i => rfl) rfl (fun a ha => by simp at ha; subst ha; exact Anc.refl _) (fun a ha => Or.inl ha)
+      induction obs with
+      | nil => intro acc _ _ h1 h2; exact ⟨h1, h2⟩
+      | cons r rs ihr =>
+        intro acc hg hrg h1 h2
+        rw [List.foldl_cons]
+        have hor := hobs r (by simp)
+        apply ihr (fun r' hr' => hobs r' (by simp [hr']))
+        · split
+          · exact hg
+          · intro i; simp [hg]
+        · split
+          · exact hrg
+          · simp [hrg]
+        · split
+          · exact h1
+          · intro a ha
+            simp only [List.mem_append] at ha
+            rcases ha with ha | ha
+            · exact h1 a ha
+            · have wacc : Wired (acc.1.setDirty r.observer) := wired_same w (fun i => by simp [hg]) (by simp [hrg])
+              have := (ih wacc r.observer).1 a ha
+              exact Anc.step hor (Anc.congr (h := acc.1.setDirty r.observer) (h' := h) (fun i => by simp [hg]) this)
+        · split
+          · exact h2
+          · intro a ha
+            have wacc : Wired (acc.1.setDirty r.observer) := wired_same w (fun i => by simp [hg]) (by simp [hrg])
+            rcases (ih wacc r.observer).2 a ha with hd | hd
+            · unfold Heap.setDirty at hd
+              split at hd
+              · exact h2 a hd
+              · simp only [List.mem_cons] at hd
+                rcases hd with hd | hd
+                · subst hd; right; exact Anc.step hor (Anc.refl _)
+                · exact h2 a hd
+            · right
+              exact Anc.step hor (Anc.congr (h := acc.1.setDirty r.observer) (h' := h) (fun i => by simp [hg]) hd)
+    · exact ⟨fun a ha => by simp at ha, fun a ha => Or.inl ha⟩
+
+
+/-! ### What removal leaves behind -/
+
+/-- an object that points to no owner is mentioned by no registration, neither as observable nor as observer -/
+theorem loose_unregistered {h : Heap} (w : Wired h) {x : Id} {n : Node} (e : h.get x = some n)
+    (k : n.kind ≠ .font) (eo : owner n = none) : ∀ r ∈ h.regs, r.observable ≠ x ∧ r.observer ≠ x := by
+  intro r hr
+  have h1 := loose_no_regs w e k eo r hr
+  refine ⟨h1, fun hx => ?_⟩
+  have ok := w.regSound r hr
+  have hox : h.ownerOf x = none := by rw [ownerOf_eq e]; exact eo
+  rcases ok.2 with ⟨_, h2⟩ | ⟨_, h2⟩
+  · exact h1 (by rw [← h2, hx])
+  · rw [hx] at h2
+    rcases h2 with h2 | ⟨_, h2⟩
+    · -- the observable would be owned by x, and then has no centre
+      have c := ok.1
+      obtain ⟨ns, es, _⟩ := ownerOf_some h2
+      obtain ⟨_, _, _, _, _, _, knf⟩ := owner_kind w.toStruct es (by rw [← ownerOf_eq es]; exact h2)
+      have kx : h.kindOf x ≠ some .font := by rw [kindOf_eq e]; simpa using k
+      simp only [centreOf, kindOf_eq es] at c
+      rw [if_neg (by simpa using knf), ancOf_ne w.toStruct h2 kx, ancOf_none w.toStruct hox] at c
+      cases c
+    · have := ancOf_kind h2
+      rw [kindOf_eq e] at this
+      exact k (by simpa using this)
+
+/-- without a dispatcher nothing is posted -/
+theorem post_silent (fuel : Nat) (h : Heap) (x : Id) (hd : dispOf h x = none) : post fuel h x = (h, []) := by
+  cases fuel with
+  | zero => rfl
+  | succ fuel => unfold post; simp [hd]
+
+theorem ownerOf_removeChild_self {h : Heap} (w : Wired h) {g x : Id} (kg : h.kindOf g = some .glyph)
+    (ho : h.ownerOf x = some g) : (removeChild h g x).ownerOf x = none ∧ x ∉ (removeChild h g x).kidsOf g := by
+  have hgl := glyphOf_of_owner w.toStruct ho kg
+  obtain ⟨n, en, eo⟩ := ownerOf_some ho
+  have hxg : x ≠ g := fun e => by
+    subst e
+    obtain ⟨n1, np, en', _, ep, _, ha⟩ := ownerOf_node w.toStruct ho
+    rw [en'] at ep; cases ep
+    cases hk : n1.kind <;> simp [hk, allowed, Kind.isLeaf] at ha
+  have knf : n.kind ≠ .font := by
+    obtain ⟨_, _, _, _, _, _, knf⟩ := owner_kind w.toStruct en eo
+    exact knf
+  have gx : (removeChild h g x).get x = some n.cleared := by
+    rw [show (removeChild h g x).get x = ((detachChild h g x).unlist g x).get x from by
+      simp only [removeChild, get_mark, get_detachChild_unlist]]
+    rw [get_unlist, if_neg (Ne.symm hxg), get_detachChild]
+    simp [hgl, en]
+  refine ⟨by rw [ownerOf_eq gx]; exact owner_cleared n knf, ?_⟩
+  obtain ⟨ng, eg, _⟩ := kindOf_some kg
+  have gg : (removeChild h g x).get g = some { ng with kids := ng.kids.filter (· ≠ x) } := by
+    rw [show (removeChild h g x).get g = ((detachChild h g x).unlist g x).get g from by
+      simp only [removeChild, get_mark, get_detachChild_unlist]]
+    rw [get_unlist, if_pos rfl, get_detachChild]
+    simp [hxg, eg]
+  rw [kidsOf_eq gg]
+  simp
+
+
+/-- after a layer let go of a glyph object: the glyph and everything it owned point nowhere, the layer does not
+list it any more -/
+theorem killGlyph_detaches {h : Heap} (w : Wired h) {l g : Id} {ng : Node} (eg : h.get g = some ng)
+    (kg : ng.kind = .glyph) (ho : h.ownerOf g = some l) (hc : dispOf h g ≠ none) :
+    (∀ y, y = g ∨ h.ownerOf y = some g → (killGlyph h l g).ownerOf y = none) ∧ g ∉ (killGlyph h l g).kidsOf l := by
+  have w' : WiredX [l] h := wired_mono w (fun d hd => by simp at hd)
+  have hgl : g ≠ l := fun e => by
+    subst e
+    obtain ⟨n1, np, en', _, ep, _, ha⟩ := ownerOf_node w.toStruct ho
+    rw [en'] at ep; cases ep
+    cases hk : n1.kind <;> simp [hk, allowed, Kind.isLeaf] at ha
+  have gch := (wired_endGlyph w' eg kg ho (by simp) (by simp [hgl])).2.1
+  have kgg : h.kindOf g = some .glyph := by rw [kindOf_eq eg, kg]
+  obtain ⟨_, nl, _, _, el, _, hal⟩ := ownerOf_node w.toStruct ho
+  have kl : h.kindOf l = some .layer := by
+    rw [kindOf_eq el]
+    rename_i n1 _ _ _
+    have : n1 = ng := by rw [eg] at *; simp_all
+    subst this
+    cases hk : nl.kind <;> simp [hk, kg, allowed, Kind.isLeaf] at hal ⊢
+  have holg := layer_owner_not_glyph w.toStruct kl kgg
+  refine ⟨fun y hy => ?_, ?_⟩
+  · have hyl : y ≠ l := by
+      rcases hy with e | e
+      · rw [e]; exact hgl
+      · intro e2; rw [e2] at e; exact holg e
+    have gy : (killGlyph h l g).get y = (h.get y).map Node.cleared := by
+      unfold killGlyph
+      rw [get_unlist, if_neg (Ne.symm hyl), gch, if_pos ⟨hc, hy⟩]
+    unfold Heap.ownerOf
+    rw [gy]
+    cases ey : h.get y with
+    | none => rfl
+    | some ny =>
+      have kny : ny.kind ≠ .font := by
+        rcases hy with e | e
+        · subst e; rw [eg] at ey; cases ey; rw [kg]; simp
+        · obtain ⟨_, _, _, _, _, _, knf⟩ := owner_kind w.toStruct ey (by rw [← ownerOf_eq ey]; exact e)
+          exact knf
+      simp [owner_cleared ny kny]
+  · have gl : (killGlyph h l g).get l = some { nl with kids := nl.kids.filter (· ≠ g) } := by
+      unfold killGlyph
+      rw [get_unlist, if_pos rfl, gch, if_neg (by simp [Ne.symm hgl, holg]), el]; rfl
+    rw [kidsOf_eq gl]
+    simp
+
 end Parents
 end DefconModel
